@@ -12,3 +12,4 @@ import FnGraphVerif.Model.Proto
 import FnGraphVerif.Model.Settle
 import FnGraphVerif.Model.StreamPoll
 import FnGraphVerif.Model.Spec
+import FnGraphVerif.Model.StreamMicro
